@@ -54,7 +54,7 @@ GRAPHS = [D, G1, G2, GB]
 def distributions(quick):
     """every distribution of <= 3 triples over {default, IRI-named, IRI-named', bnode-named}, incl. the same triple in several graphs and a blank node shared across graphs"""
     out = []
-    trip = T[:4]
+    trip = T[:4] if quick else T[:5]        # thorough: five triples over the five placements (3125 distributions)
     for assign in itertools.product(range(len(GRAPHS) + 1), repeat=len(trip)):
         qs = [t + [GRAPHS[a]] for t, a in zip(trip, assign) if a < len(GRAPHS)]
         if qs:
@@ -98,7 +98,7 @@ def run(out, tier, seed):
     for di, (name, qs) in enumerate(ds):
         for fi, fmt in enumerate(FORMATS):
             jobs.append({"cfg": {}, "events": [{"op": "roundtrip_ds", "fmt": fmt, "shape": name, "before": qs, "default_union": bool((di + fi) % 2)}]})
-    sample = [qs for _, qs in rng.sample(ds, 14 if quick else 40)] + [[]]
+    sample = [qs for _, qs in rng.sample(ds, 14 if quick else 110)] + [[]]
     for a in sample:
         for b in sample:
             if all(q[3]["k"] != "bnode" or True for q in a + b):
